@@ -248,7 +248,7 @@ def box(ex, v):
         return v.val
     if isinstance(v, KwPack) and not v.known:
         return v.val
-    if isinstance(v, (Callable_, ExcClass, BoundMethod, Module, KwPack)):
+    if isinstance(v, (Callable_, ExcClass, BoundMethod, Module, KwPack, DictVal)):
         # python-level handle: give it an identity
         for k, o in ex.objs.items():
             if o is v:
